@@ -34,8 +34,8 @@ class Check(PropCheck):
             n = rng.randint(2, 14) if rng.random() < 0.7 else rng.randint(14, 40 if self.tier == 'quick' else 300)
             mode = rng.choice(['exact', 'exact', 'exact', 'mod', 'none'])
             names = ['t%d' % i for i in range(n)] if rng.random() < 0.5 else ['Tip_%d' % i for i in range(n)]
-            t = gen.rand_tree(rng, n, mode, p_multi=rng.choice([0, 0.3, 0.6]), p_unary=rng.choice([0, 0.15]), internal_names=0.3, names=names,
-                              root_len=rng.random() < 0.2)
+            t = gen.rand_tree(rng, n, mode, p_multi=rng.choice([0, 0.3, 0.6]), p_unary=rng.choice([0, 0.15]), internal_names=rng.choice([0.3, 0.8]), names=names,
+                              root_len=rng.random() < 0.2, collide=rng.choice([0, 0, 0.5]))
             ops = [gen.parse_op(gen.to_newick(t))] if rng.random() < 0.7 else ['new'] + gen.build_ops(t)
             if rng.random() < 0.25:
                 ops += edit_prefix(rng, rng.randint(1, 3)) + ['compress']
